@@ -31,11 +31,11 @@ SPEC_MODULES = ["Alloc", "AllocMech", "MCAlloc", "BigInt"]
 
 # which bounded models serve which property: (cfg name, expected to hold)
 MC_PLAN = {
-    "C12": [("core", True), ("ckpt", True), ("gc", True), ("sim", True), ("f5", False)],
+    "C12": [("core", True), ("ckpt", True), ("gc", True), ("ints", True), ("sim", True), ("f5", False)],
     "C13": [("caps", True), ("sim", True), ("capsf5", False)],
     "C14": [("ints", True), ("bytes", True), ("core", True)],
 }
-SIM = {"quick": ("2", "20"), "thorough": ("24", "40")}      # (number of walks, depth) of TLC -simulate
+SIM = {"quick": ("1", "16"), "thorough": ("24", "40")}      # (number of walks, depth) of TLC -simulate
 
 
 def canonical_small(b):
@@ -86,6 +86,8 @@ def classify(op, exp, obs, before, lim):
         cls.append("C12")
     if c13:
         cls.append("C13")
+    if obs.get("rb_differs"):
+        cls.append("C14")
     if not st_ok and not c12 and not c13:
         cls.append("OTHER")
     if st_ok and cnt_ok and exp.get("ret") != obs.get("ret"):
@@ -97,7 +99,8 @@ def classify(op, exp, obs, before, lim):
 # bounded model checking (spec only -> cached by the hash of the spec files)
 
 def run_mc(cfg, tier, expect_ok):
-    key = "mcalloc|%s|%s|%s" % (cfg, C.spec_hash(SPEC_MODULES + ["MCAlloc_%s.cfg" % cfg]), tier)
+    key = "mcalloc|%s|%s|%s|%s" % (cfg, C.spec_hash(SPEC_MODULES + ["MCAlloc_%s.cfg" % cfg]), tier,
+                                  SIM[tier] if cfg == "sim" else "")
     cpath = C.cache_path("mc", key)
     if os.path.exists(cpath):
         return json.load(open(cpath))
@@ -158,12 +161,25 @@ def add_violation(out, prop, cls, sig, desc, payload, counts):
     elif "OTHER" in cls and not any(c in cls for c in ("C12", "C13", "C14")):
         out.drift.append("status disagreement not named by C12-C14: " + desc[:300])
     else:
+        # a disagreement that belongs to another property of this engine: it is reported by that property's check
+        # (same generators, same models); here it is counted, and shown as DRIFT unless it is the known finding
         counts["other_property"] += 1
+        if sig != F5_SIG and len(out.drift) < 20:
+            out.drift.append("disagreement of class %s seen while checking %s: %s" % ("+".join(cls), prop, desc[:300]))
 
 
-def replay_cases(out, prop, hb, work, cases, counts, tag):
+def kind_of(op, st, outcome=""):
+    return "%s:%s%s" % (op, st, ("/" + outcome) if outcome else "")
+
+
+def replay_cases(out, prop, hb, work, cases, counts, tag, kinds):
     if not cases:
         return
+    for c in cases:
+        if c["replayable"]:
+            for e in c["ops"]:
+                k = kind_of(e["op"]["op"], e["st"], e["op"].get("out", ""))
+                kinds[k] = kinds.get(k, 0) + 1
     cpath = os.path.join(work, "cases-%s-%d.ndjson" % (tag, os.getpid()))
     with open(cpath, "w") as f:
         for c in cases:
@@ -209,10 +225,14 @@ def validate_trace(trace, name):
     counts = {"trace_lines": 0, "trace_skipped_after_status_mismatch": 0, "f5_hits": 0}
     nlines = 0
     distinct = set()
+    kinds = {}
     with open(trace) as f:
         for ln in f:
             nlines += 1
             distinct.add(hashlib.sha256(ln.encode()).digest()[:10])
+            e = json.loads(ln)
+            k = kind_of(e["ev"], e.get("st", e.get("r", "")), e.get("out", ""))
+            kinds[k] = kinds.get(k, 0) + 1
     res = C.run_tlc("TraceAlloc", workers=1, env={"TRACE": trace}, deque=True, timeout=3400, name=name)
     C.tlc_ok_or_raise(res, "TraceAlloc")
     done = res.tagged("TRACE-DONE")
@@ -221,6 +241,7 @@ def validate_trace(trace, name):
     counts["trace_lines"] += nlines
     counts["trace_skipped_after_status_mismatch"] += done[-1]["skipped"]
     res._alloc_distinct = distinct
+    res._alloc_kinds = kinds
     mism = []
     for m in res.tagged("MISMATCH"):
         ev, exp, cls = m["event"], m["exp"], m["cls"]
@@ -259,6 +280,8 @@ def record_and_validate(out, prop, hb, work, jobs, counts):
         for k, v in cn.items():
             counts[k] += v
         distinct |= res._alloc_distinct
+        for k, v in res._alloc_kinds.items():
+            counts["_rk"][k] = counts["_rk"].get(k, 0) + v
         for cls, sig, desc, payload in mism:
             add_violation(out, prop, cls, sig, desc, payload, counts)
         if len(out.samples) < 5:
@@ -292,8 +315,10 @@ def check(prop, tier, seed):
             out.extra.setdefault("f5_design_counterexample", {})[cfg] = f5_story(mc["cex"][0])
 
     # 2. spec -> impl: replay every behaviour
+    kinds = {}
+    counts["_rk"] = {}
     for cfg, ok, mc in mcs:
-        replay_cases(out, prop, hb, work, mc["cases"], counts, cfg)
+        replay_cases(out, prop, hb, work, mc["cases"], counts, cfg, kinds)
         if mc["cases"]:
             c = mc["cases"][len(mc["cases"]) // 2]
             out.sample({"tlc_behaviour": cfg, "calls": [op_digest(e["op"]) + " -> " + e["st"] for e in c["ops"]][:8]})
@@ -313,6 +338,8 @@ def check(prop, tier, seed):
     out.traces = counts["cases"] + counts["trace_lines"]
     out.evaluations = counts["replay_steps"] + counts["trace_lines"]
     out.nontrivial = counts["cases"] + distinct_events
+    out.extra["recorded_events_by_kind"] = dict(sorted(counts.pop("_rk").items()))
+    out.extra["replayed_calls_by_kind"] = dict(sorted(kinds.items()))
     out.extra.update(counts)
     out.extra["abstained"] = counts["abstained"] + counts["trace_skipped_after_status_mismatch"]
     out.rule = ("every TLC behaviour is a distinct call sequence (the state graph of MCAlloc is the tree of call sequences) "
